@@ -98,6 +98,7 @@ type world struct {
 	multi     bool // several actions run concurrently: labels carry the action index
 	acts      []*actionState
 	parked    int // threads parked inside a fake storage call (at its choice point)
+	armed     map[*mc.Thread]string // upload goroutines that just returned from a fake CAS Put (semhook.go)
 }
 
 // maxActions is the number of cancel events registered per execution (no
@@ -238,6 +239,7 @@ func newWorld(x *mc.X) *world {
 		w.contents[n] = data
 		w.names[w.key(d)] = n
 	}
+	w.installSemHook()
 	// P is already present in the CAS before anything runs.
 	w.cas[w.key(w.digests["P"])] = w.contents["P"]
 	return w
